@@ -690,6 +690,8 @@ package smtp
 //@   before fmt.Fprintf: @C15 only-negotiated-parameters: ($1 == " SIZE=%v" ==> has(c.ext, "SIZE")) && ($1 == " RET=%s" ==> has(c.ext, "DSN")) && ($1 == " ENVID=%s" ==> has(c.ext, "DSN")) && ($1 == " AUTH=%s" ==> has(c.ext, "AUTH"))
 //@   before (*Client).cmd: @C15 extensions-from-the-latest-ehlo: c.didHello
 //@   before encodeXtext#1: @C14 envid-within-the-xtext-domain: $0 == opts.EnvelopeID && printableASCII($0)
+//@   before (*Client).cmd: @C14 every-requested-flag-is-rendered: opts != nil ==> (opts.RequireTLS ==> contains(fmtline($2, $3), " REQUIRETLS")) && (opts.UTF8 ==> contains(fmtline($2, $3), " SMTPUTF8"))
+//@   before (*Client).cmd: @C14 every-requested-and-offered-option-is-rendered: opts != nil ==> (opts.Size != 0 && has(c.ext, "SIZE") ==> contains(fmtline($2, $3), " SIZE=")) && (opts.Return != "" && has(c.ext, "DSN") ==> contains(fmtline($2, $3), " RET=")) && (opts.EnvelopeID != "" && has(c.ext, "DSN") ==> contains(fmtline($2, $3), " ENVID=")) && (opts.Auth != nil && has(c.ext, "AUTH") ==> contains(fmtline($2, $3), " AUTH="))
 //@   ensures @C15 nothing-written-for-bad-line: !noCRLF(from) ==> err != nil && c.text.cmds == old(c.text.cmds)
 //@   ensures @C15 greeting-plus-one: c.text.cmds <= old(c.text.cmds) + 3
 //@   ensures @C15 requiretls-not-silently-dropped: opts != nil && opts.RequireTLS && !has(c.ext, "REQUIRETLS") ==> err != nil && c.text.cmds <= old(c.text.cmds) + 2
@@ -702,12 +704,14 @@ package smtp
 //@   before (*strings.Builder).WriteString: @C15 only-negotiated-parameters: ($1 == " NOTIFY=" ==> has(c.ext, "DSN"))
 //@   before fmt.Fprintf: @C15 only-negotiated-parameters: ($1 == " ORCPT=%s;%s" ==> has(c.ext, "DSN"))
 //@   before fmt.Sprintf: @C15 only-negotiated-parameters: ($0 == " RRVS=%s" ==> has(c.ext, "RRVS"))
+//@   before (*Client).cmd: @C14 requested-notify-is-rendered: opts != nil && opts.Notify != nil && len(opts.Notify) != 0 && has(c.ext, "DSN") ==> contains(fmtline($2, $3), " NOTIFY=")
+//@   before (*Client).cmd: @C14 requested-orcpt-is-rendered: opts != nil && opts.OriginalRecipient != "" && has(c.ext, "DSN") ==> contains(fmtline($2, $3), " ORCPT=")
 //@   ensures @C15 nothing-written-for-bad-line: !noCRLF(to) ==> err != nil && c.text.cmds == old(c.text.cmds)
 //@   ensures @C15 exactly-one-line-otherwise: c.text.cmds <= old(c.text.cmds) + 1
 //@   ensures @C18 accepted-recipient-recorded: err == nil ==> len(c.rcpts) == len(old(c.rcpts)) + 1
 //@   ensures @C18 refused-recipient-not-recorded: err != nil ==> len(c.rcpts) == len(old(c.rcpts))
 //@   loop 1:
-//@     invariant noCRLF(sb.content) && c.text.cmds == old(c.text.cmds) && len(c.rcpts) == len(old(c.rcpts)) && c.rcpts == old(c.rcpts)
+//@     invariant noCRLF(sb.content) && contains(sb.content, " NOTIFY=") && c.text.cmds == old(c.text.cmds) && len(c.rcpts) == len(old(c.rcpts)) && c.rcpts == old(c.rcpts)
 //@     invariant forall j :: 0 <= j && j < len(opts.Notify) ==> noCRLF(opts.Notify[j])
 
 //@ contract (*Client).Data(c) (w, err)
